@@ -11,7 +11,9 @@ from sv import core
 
 PROPERTY = "C13"
 GEN = ["Discretise", "Brier"]
-PROPS = ["ScoresVerif/Props/C13.lean"]
+PROPS = ["ScoresVerif/Props/C13.lean", "ScoresVerif/Props/C13Fair.lean", "ScoresVerif/Props/C13Expect.lean",
+         "ScoresVerif/Props/C13Array.lean", "ScoresVerif/Props/C13Range.lean", "ScoresVerif/Props/C13Pairs.lean"]
+AUDIT_FILES = ["ScoresVerif/Lemmas/C13Binomial.lean", "ScoresVerif/Lemmas/C13Mean.lean", "ScoresVerif/Lemmas/C13Pairs.lean"]
 DRIVER_DEPS = ["ScoresVerif.Driver.C13Spec", "ScoresVerif.Driver.C13"]
 LEVEL = "proof"
 TRUSTED = ["SV.PyOp / SV.PyMode (Model/Discretise.lean) as the meaning of Python's operator functions and of `not in [...]`",
